@@ -124,6 +124,18 @@ class Builder:
 
     # ---- layers
     def layer(self, d):
+        # opt-in: equal descriptions of these kinds are ONE layer object, reused in every pipeline the builder makes
+        # (layer objects may be used in several pipelines, C09; the suites that turn this on check that history does not matter)
+        pool = getattr(self, 'object_pool', None)
+        if pool is not None and d['k'] in ('transform', 'apply', 'ram', 'filter', 'groupby', 'check_ids', 'keep', 'drop'):
+            import json as _json
+            key = _json.dumps(d, sort_keys=True, default=str)
+            if key not in pool:
+                pool[key] = self._layer(d)
+            return pool[key]
+        return self._layer(d)
+
+    def _layer(self, d):
         c = self.c
         k = d['k']
         if k in ('source', 'transform', 'split'):
